@@ -253,13 +253,20 @@ Definition crossing_weight (c : list nat) : nat :=
   | None => 0
   end.
 
+(** the product of the level lists as (factor, level) dictionaries, and the
+    combinations that survive [is_excluded_or_inconsistent_combination] *)
+Definition crossing_combos (c : list nat) : list (list (nat * nat)) :=
+  product (map (fun f => map (fun l => (f, l)) (seq 0 (nlevels fb f))) c).
+
+Definition trial_combinations_of (c : list nat) : list (list (nat * nat)) :=
+  filter (fun di => negb (is_excluded_or_inconsistent di)) (crossing_combos c).
+
 Definition apply_one_crossing (i : nat) (c : list nat) (fresh : Z) : cres contrib :=
   let crossing_size := nth i (fl_sizes fb) 0 in
   let pre := preamble_size i in
   let cw := crossing_weight c in
   let crossing_trials := seq (1 + pre) (T - pre) in
-  let combos := product (map (fun f => map (fun l => (f, l)) (seq 0 (nlevels fb f))) c) in
-  let trial_combinations := filter (fun di => negb (is_excluded_or_inconsistent di)) combos in
+  let trial_combinations := trial_combinations_of c in
   enc <~ cmapM (fun t => cmapM (fun di => encode_combination di t) trial_combinations) crossing_trials ;;
   match enc with
   | [] => CErr CIndexError
